@@ -370,6 +370,33 @@ func init() {
 		}
 		add(o.name, o.e, "f", w)
 	}
+	// the same operators over a column *path* (o.p, o.b) one row of which cannot be walked (o is a scalar there):
+	// the failure is the operand's read, which each operator has to hand on as well
+	addPath := func(name, e, where string) {
+		tpl := struct {
+			q, shape, table, col string
+			nested               bool
+			scalar               bool
+		}{fmt.Sprintf("SELECT id, %s AS x FROM t", e), "type_path_" + name, "t", "o", false, true}
+		c19TypeTemplates = append(c19TypeTemplates, tpl)
+		tpl.q, tpl.shape = "SELECT id FROM t WHERE "+where, "type_path_"+name+"_where"
+		c19TypeTemplates = append(c19TypeTemplates, tpl)
+	}
+	for _, o := range []struct{ name, e string }{{"neg", "-o.p"}, {"tilde", "~o.p"}, {"bitand", "o.p & 1"}, {"shl", "o.p << 1"}, {"div", "o.p DIV 2"}, {"mul", "2 * o.p"}, {"add_r", "id + o.p"}} {
+		addPath(o.name, o.e, o.e+" > -100000")
+	}
+	// (BETWEEN bounds are left out: the engine never reads a column given as a bound - it compares the printed
+	// point with the bound's *name* - so no step fails there; that is a defect of BETWEEN itself, C01, not claimed)
+	for _, o := range []struct{ name, e string }{{"not", "NOT o.b"}, {"and_l", "o.b AND TRUE"}, {"and_r", "TRUE AND o.b"}, {"or_l", "o.b OR FALSE"}, {"or_r", "FALSE OR o.b"}, {"if", "IF(o.b, 1, 0) = 1"},
+		{"between_pt", "o.p BETWEEN 0 AND 100"}, {"in_l", "o.p IN (1, 2, 3)"}, {"in_elem", "2 IN (o.p, 7)"},
+		{"not_in", "o.p NOT IN (9)"}, {"is_null", "o.p IS NULL"}, {"is_true", "o.b IS TRUE"}, {"like", "o.q LIKE 'k%'"}, {"cmp_l", "o.p >= 0"}, {"cmp_r", "0 <= o.p"},
+		{"case_cond", "CASE WHEN o.b THEN TRUE ELSE TRUE END"}} {
+		addPath(o.name, o.e, o.e)
+	}
+	for _, o := range []struct{ name, e string }{{"concat", "CONCAT('a', o.q)"}, {"array", "ARRAY(o.p, 1)"}, {"tuple", "(o.p, 1)"}, {"case_then", "CASE WHEN id > 0 THEN o.p ELSE 0 END"},
+		{"if_then", "IF(id > 0, o.p, 0)"}, {"hash", "HASH(o.q, 'md5')"}, {"async_arg", "ASYNC.fx(9, o.p)"}, {"substr", "SUBSTR(o.q, 0, 1)"}} {
+		addPath(o.name, o.e, o.e+" IS NOT NULL")
+	}
 	add("to_upper", "TO_UPPER(s)", "s", "TO_UPPER(s) = 'X'")
 	add("first", "FIRST(tags)", "tags", "")
 	add("last", "LAST(tags)", "tags", "")
@@ -536,9 +563,9 @@ func genC19(t *rapid.T) *Bundle {
 func corpusC19() []*Bundle {
 	doc := map[string]any{
 		"t": []any{
-			map[string]any{"id": 1.0, "a": 10.0, "s": "x", "f": true, "n": []any{map[string]any{"v": 1.0, "w": "p"}, map[string]any{"v": 2.0, "w": "q"}}, "o": map[string]any{"p": 1.0, "q": "k"}, "tags": []any{"x", "y"}},
-			map[string]any{"id": 2.0, "a": 20.0, "s": "xy", "f": false, "n": []any{map[string]any{"v": 3.0, "w": "p"}}, "o": map[string]any{"p": 2.0, "q": "m"}, "tags": []any{"y"}},
-			map[string]any{"id": 3.0, "a": 30.0, "s": "x", "f": true, "n": []any{}, "o": map[string]any{"p": 1.0, "q": "k"}, "tags": []any{}},
+			map[string]any{"id": 1.0, "a": 10.0, "s": "x", "f": true, "n": []any{map[string]any{"v": 1.0, "w": "p"}, map[string]any{"v": 2.0, "w": "q"}}, "o": map[string]any{"p": 1.0, "q": "k", "b": true}, "tags": []any{"x", "y"}},
+			map[string]any{"id": 2.0, "a": 20.0, "s": "xy", "f": false, "n": []any{map[string]any{"v": 3.0, "w": "p"}}, "o": map[string]any{"p": 2.0, "q": "m", "b": false}, "tags": []any{"y"}},
+			map[string]any{"id": 3.0, "a": 30.0, "s": "x", "f": true, "n": []any{}, "o": map[string]any{"p": 1.0, "q": "k", "b": true}, "tags": []any{}},
 		},
 		"u":    []any{map[string]any{"id": 1.0, "b": "k", "g": true}, map[string]any{"id": 3.0, "b": "m", "g": false}},
 		"meta": map[string]any{"ip": "10.0.0.1"},
